@@ -44,6 +44,15 @@ func c12UpOpts() []c12Opt {
 		{"ecs-scope", o(1232, 0, refdns.Option(8, []byte{0, 1, 24, 24, 198, 51, 100}))},
 		{"cookie", o(1232, 0, refdns.Option(10, make([]byte, 24)))},
 		{"padding+do", o(4096, 0x8000, refdns.Option(12, make([]byte, 100)))},
+		// a type-41 record whose owner is not the root (malformed, but it is what the upstream sent): not relayed either
+		{"opt-with-owner-name", func() *refdns.RR {
+			r := refdns.OPT(1232, 0, refdns.Option(10, make([]byte, 8)))
+			r.Owner = refdns.N("x")
+			return &r
+		}()},
+		// no reply at all / a failed exchange: the proxy's own SERVFAIL follows the same rule
+		{"silence", nil},
+		{"exchange-fails", nil},
 	}
 }
 
@@ -215,7 +224,11 @@ func c12Scenario(c *choice.Ctx, rep *report.R) {
 			for _, b := range c12CheckUpstreamQuery(uq, ecs, cli.addr) {
 				fail("upstream-query", label+": "+b)
 			}
-			if !uq.Answered && !uq.Gone && uq.Msg != nil {
+			if uo.name == "exchange-fails" && !uq.Answered && !uq.Gone {
+				uq.Fail()
+			} else if uo.name == "silence" {
+				// nobody answers: the request deadline (6 s) produces the response
+			} else if !uq.Answered && !uq.Gone && uq.Msg != nil {
 				r := env.Answer(uq.Msg, byte(len(qs)), replyTTL)
 				if uo.rr != nil {
 					r.Ar = []refdns.RR{*uo.rr}
@@ -225,6 +238,10 @@ func c12Scenario(c *choice.Ctx, rep *report.R) {
 		}
 		nUp = len(qs)
 		wait()
+		if uo.name == "silence" && expectUpstream {
+			hsleep(6100 * time.Millisecond)
+			wait()
+		}
 		rs := sc.Responses()
 		if len(rs) != nResp+1 || rs[nResp] == nil {
 			fail("response-count", fmt.Sprintf("%s: %d new responses", label, len(rs)-nResp))
@@ -238,7 +255,9 @@ func c12Scenario(c *choice.Ctx, rep *report.R) {
 		nResp = len(rs)
 	}
 	step("miss", rule == "forward", 60)
-	if rule == "forward" {
+	if rule == "forward" && (uo.name == "silence" || uo.name == "exchange-fails") {
+		step("miss-again", true, 60) // nothing was cached
+	} else if rule == "forward" {
 		hsleep(2 * time.Second)
 		step("hit", false, 60)
 		hsleep(50 * time.Second) // into the last quarter: hit + background refresh
@@ -419,7 +438,7 @@ func TestVerifC12(t *testing.T) {
 	rep := report.New("C12 EDNS0 / ECS")
 	defer rep.Write()
 	rep.Rule = "E3: real router+cache with scripted upstream in a synctest bubble; full product ECS on/off x client address {v4, v6, v4-mapped, unknown} x rule {forward, reject, none} x client OPT {absent, empty, cookie, client ECS, padding, DO, ext-rcode/version, size 0} " +
-		"x upstream reply OPT {absent, empty, ECS scope, cookie, padding+DO}; each forward case walks miss -> hit -> hit in the last TTL quarter (background refresh) -> hit after refresh; plus ECS encoding for every single-bit and all-ones address (v4: 33, v6: 129, v4-mapped: 33); " +
+		"x upstream reply {no OPT, empty OPT, ECS scope, cookie, padding+DO, a type-41 record with an owner name, no reply at all (the proxy's own SERVFAIL at the 6 s deadline), failed exchange}; each forward case walks miss -> hit -> hit in the last TTL quarter (background refresh) -> hit after refresh; plus ECS encoding for every single-bit and all-ones address (v4: 33, v6: 129, v4-mapped: 33); " +
 		"oracle: response has exactly one option-less OPT (size 1200, ttl field 0) iff the query had one; every upstream query (incl. refresh) has exactly one OPT with an ECS option iff enabled and address known, family/prefix 24|56, scope 0, 3|7 octets; " +
 		"plus the client address each listener uses (ECS on, miss and background refresh): every listener seam with its own peer address, and the net/http and fasthttp DoH servers (GET and POST) with client_addr_header " +
 		"{not configured: peer address v4/v6/v4-mapped/not an ip:port, configured and present: single value / comma list (first entry) for v4/v6/v4-mapped, configured but absent: unknown}; the front-end's own address never appears in ECS"
